@@ -1129,6 +1129,59 @@ def m_fold(it, st, fr, t, args, ga):
         except I.InterpError as e:
             if 'fork inside closure' not in str(e):
                 raise
+    # additive folds: every numeric leaf of the accumulator (a number, or a private accumulator struct / tuple of numbers) is,
+    # after one application of the closure to an arbitrary accumulator and an arbitrary element, either unchanged or
+    # `leaf + element`: the result is the initial accumulator with `sum(seq)` added to those leaves - the normal form of
+    # Iterator::sum and of the loop reductions (float addition order: init, then the elements in order)
+    try:
+        import copy as _copy
+        from .frozen import _leaves, _set
+        leaves = list(_leaves(acc)) if not isinstance(acc, I.Num) else [((), acc)]
+        if leaves and all(isinstance(v, I.Num) for _, v in leaves):
+            sp = st.fork()
+            ev = _elem_value(it, sp, c, sp.ctx.sym_range(sp.fresh_name('i'), 0, 2 ** 32, integer=True))
+            if isinstance(ev, I.Num):
+                sym_acc = _copy.deepcopy(acc)
+                atoms = {}
+                for pth, v in leaves:
+                    A_ = Poly.atom(('sym', sp.fresh_name('fold_a')))
+                    atoms[pth] = A_
+                    if pth:
+                        _set(sym_acc, pth, I.Num(A_, v.ty))
+                    else:
+                        sym_acc = I.Num(A_, v.ty)
+                plan = None
+                for s2, r in closure_results(it, sp, clo, [sym_acc, I.RefV(sp.new_cell(ev))]):
+                    rl = dict(_leaves(r)) if not isinstance(r, I.Num) else {(): r}
+                    this = {}
+                    for pth, A_ in atoms.items():
+                        x = rl.get(pth)
+                        if not isinstance(x, I.Num):
+                            this = None
+                            break
+                        if x.term == A_:
+                            this[pth] = 'keep'
+                        elif x.term == A_ + ev.term and x.term != A_:
+                            this[pth] = 'sum'
+                        else:
+                            this = None
+                            break
+                    if this is None or (plan is not None and this != plan):
+                        plan = None
+                        break
+                    plan = this
+                if plan is not None and 'sum' in plan.values():
+                    out = _copy.deepcopy(acc)
+                    for pth, v in leaves:
+                        if plan[pth] == 'sum':
+                            nv = I.Num(v.term + t_app('sum', [c.term]), v.ty)
+                            if pth:
+                                _set(out, pth, nv)
+                            else:
+                                out = nv
+                    return out
+    except I.InterpError:
+        pass
     if not isinstance(acc, I.Num):
         raise I.InterpError('fold with a non-numeric accumulator over a sequence of unknown length')
     # selection folds: |a, b| max(a, b) / min(a, b) (written with Ord::max, an if, ...) fold to the running max / min over
